@@ -1,4 +1,6 @@
 /-
-C20 — meshes are valid partitions with consistent connectivity.  Part a: 1D meshes.
+C20 — meshes are valid partitions with consistent connectivity.  Part a: 1D meshes.  Part b: the 2D
+Cartesian mesh (counts, volumes, boundary index tables under the flattening maps).
 -/
 import Flowdyn.Props.C20a
+import Flowdyn.Props.C20b
